@@ -150,9 +150,7 @@ impl Property for C11 {
                     } else {
                         cause = "error";
                         step_err = true;
-                        if inside && !e.contains("limit") {
-                            // a generated program only fails by leaving the code or by an unmapped stack
-                        }
+                        let _ = (inside, &e);
                     }
                     break;
                 }
@@ -242,7 +240,8 @@ impl Property for C11 {
                 }
                 Api::Err(e) => {
                     // a step refused because of the instruction limit changes nothing — not even the finished flag
-                    if e.contains("limit") && !was_finished {
+                    // (recognised by the state — the executed count has reached the limit — not by the error text)
+                    if pre_d.executed >= eff_limit && !was_finished {
                         let post_d = snap(&d);
                         if post_d != pre_d {
                             fail(&mut out, "limit|refused-step-changed-state", format!("the step refused at the instruction limit changed state: {}", pre_d.diff(&post_d)));
